@@ -6,6 +6,7 @@
    certificate lists over the 17 enum variants = 19 CDDL kinds, with arbitrary amounts (also
    amounts >= 2^64: no range premise is needed), withdrawal lists, proposal lists, parameters. *)
 From CSL Require Import Base.Prelude Base.U64 Deposits.Deposits Deposits.DepositsProofs.
+From CSL Require Import Deposits.History Deposits.HistoryProofs.
 From CSL Require Import Deposits.Ident Deposits.IdentProofs Deposits.LedgerState Deposits.LedgerStateProofs Deposits.TotalsBridge.
 From CSL Require Num.Value Builder.Totals Builder.TotalsProofs.
 From Coq Require Import Permutation.
@@ -236,11 +237,38 @@ Theorem C20_shared_fields_do_not_merge :
        (map ic_cert (eff_certs [mk_icert PoolRegistration s (mk_ident cred op v1); mk_icert PoolRegistration s (mk_ident cred op v2)])) p q
      = exact_or_error (p + p))
   /\ (forall x, map ic_cert (eff_certs [x; x]) = [ic_cert x])
-  /\ (forall s a c1 c2, map plain_wd (eff_wdrl [mk_iwd s a c1; mk_iwd s a c2]) = [(s, c2)]).
+  /\ (forall s a n c1 c2, map plain_wd (eff_wdrl [mk_iwd s a n c1; mk_iwd s a n c2]) = [(s, c2)]).
 Proof.
   split; [exact same_operator_charged_twice |]. split; [exact equal_certificate_charged_once | exact withdrawal_replaced].
 Qed.
 Print Assumptions C20_shared_fields_do_not_merge.
+
+(* the network id is part of a reward account: one credential on two networks is two withdrawals, both kept by the
+   map of the body, by the builder and by the body the builder emits *)
+Theorem C20_network_is_part_of_account : forall s a n1 n2 c1 c2, n1 <> n2 ->
+  map plain_wd (eff_wdrl [mk_iwd s a n1 c1; mk_iwd s a n2 c2]) = [(s, c1); (s, c2)].
+Proof. exact different_network_kept. Qed.
+Print Assumptions C20_network_is_part_of_account.
+
+(* histories on one TransactionBuilder: after ANY sequence of set_certs / set_certs_builder / remove_certs /
+   set_withdrawals / set_withdrawals_builder / remove_withdrawals (a failing deprecated setter leaves the builder as it
+   was), the final setters of a case (remove_* for an absent collection) leave exactly the collections of the case:
+   setters replace, they do not merge.  The figures are therefore those of the case, whatever came before. *)
+Theorem C20_history_is_overwritten : forall (h : list hop) (st : tbcoll) (ik : icase),
+  run_history (h ++ final_main ik) st = case_coll ik /\
+  (deprecated_ok ik = true -> run_history (h ++ final_deprecated ik) st = case_coll ik) /\
+  option_map (map plain_cert) (tc_certs (run_history (h ++ final_main ik) st)) = k_certs (effective ik) /\
+  option_map (map plain_wd) (tc_wdrl (run_history (h ++ final_main ik) st)) = k_withdrawals (effective ik).
+Proof.
+  intros h st ik. split; [apply history_overwritten_main |]. split; [apply history_overwritten_deprecated |].
+  exact (history_effective h st ik).
+Qed.
+Print Assumptions C20_history_is_overwritten.
+
+Example C20_history_premises_satisfiable :
+  deprecated_ok (mk_icase 0 0 (Some [mk_icert (StakeDeregistration (Some 5)) false (mk_ident 1 0 0)])
+                          (Some [mk_iwd false 1 0 5; mk_iwd false 1 1 6]) None [] [] None) = true.
+Proof. reflexivity. Qed.
 
 (* the extracted judge of the correspondence run (sizes of the six collections + the judge above on
    the merged items) accepts the model's own observation, for every identified case *)
